@@ -1,10 +1,21 @@
 use std::convert::TryFrom;
 
+use rusty_bit_vec::MAX_INTEGER;
 use rusty_linter::core::QBNumberCast;
 use rusty_parser::FileHandle;
 use rusty_variant::Variant;
 
 use crate::RuntimeError;
+
+/// Converts a size or address into the value of an INTEGER result.
+/// A value beyond the INTEGER range is an overflow.
+pub fn integer_from_size(size: usize) -> Result<i32, RuntimeError> {
+    if size <= MAX_INTEGER as usize {
+        Ok(size as i32)
+    } else {
+        Err(RuntimeError::Overflow)
+    }
+}
 
 pub trait VariantCasts {
     fn to_file_handle(&self) -> Result<FileHandle, RuntimeError>;
